@@ -84,8 +84,10 @@ class C03(Spec):
     explanation = "Deductive: every primitive that can raise in a function reachable from iter_errors is shown unreachable under wf_d(schema) and isjson(instance); allowed exits: sub-validation exceptions, UnknownType (draft 3)."
 
     def tasks(self, root, tier):
+        from contracts import tasks_resolver
         return (tasks_keywords.keyword_tasks(root, _tmo(tier)) +
-                tasks_core.core_tasks(root, 2 * _tmo(tier), which=("iter_errors", "is_valid", "descend", "validate", "is_type")))
+                tasks_core.core_tasks(root, 2 * _tmo(tier), which=("iter_errors", "is_valid", "descend", "validate", "is_type")) +
+                tasks_resolver.resolver_tasks(root, 2 * _tmo(tier), which=("resolve_fragment",)))
 
     def select(self, ob, r):
         return ob["kind"] in ("S", "P")
@@ -200,6 +202,7 @@ VALIDATION_WRITES = [
 
 class C05(Spec):
     pid = "C05"
+    oos_structure = True
     level = "proof"
     design_ref = "DESIGN.md section 8 C05"
     trusted = [
@@ -228,6 +231,7 @@ class C05(Spec):
 
 class C06(Spec):
     pid = "C06"
+    oos_structure = True
     level = "proof"
     design_ref = "DESIGN.md section 8 C06"
     trusted = [
@@ -381,6 +385,36 @@ class C07(Spec):
         return [history_standin(root, tier)]
 
 
+class C14(Spec):
+    pid = "C14"
+    level = "proof"
+    design_ref = "DESIGN.md section 8 C14"
+    trusted = [
+        "spec: RFC 6901 evaluation as SMT functions ptr_walk / ptr_walk_ok (contracts/tasks_resolver.py), mirrored executably in spec/pointer.py",
+        "assumed str contracts: unquote is RFC 3986 percent-decoding (uninterpreted, shared by code and spec), s.split(sep) and s.replace(a, b) are functions of their arguments (uninterpreted, shared: decode order ~1 then ~0 is pinned by term structure), isdigit() and isascii() hold together exactly on [0-9]+, int(s) on [0-9]+ is its decimal value",
+        "the string lemma relating the code's index test to the RFC's index language 0|[1-9][0-9]* is discharged by cvc5's string solver as its own obligation",
+    ]
+    assumptions = ["the fragment, once percent-decoded, is a JSON pointer (empty or starting with '/'): plain-name fragments are outside RFC 6901 and outside the property",
+                   "documents are JSON values"]
+    explanation = "resolve_fragment is proved, with the loop invariant `document == ptr_walk(doc, tokens, k) and no step failed`, to return exactly the RFC 6901 value, to raise RefResolutionError exactly when the RFC evaluation fails, and to raise nothing else (TypeError, KeyError, IndexError, ValueError edges refuted)."
+
+    def tasks(self, root, tier):
+        from contracts import tasks_resolver
+        return tasks_resolver.resolver_tasks(root, 2 * _tmo(tier), which=("resolve_fragment",))
+
+    def select(self, ob, r):
+        return True
+
+    def failure_kinds(self):
+        return ("F", "S")
+
+    def standins(self, root, tier):
+        from pyvc import driver
+        r = driver.rt_call("pyvc.rt_ptr", {"cmd": "search", "root": root, "maxlen": 5 if tier == "thorough" else 4}, root, timeout=3000)
+        return [{"name": "pointer-fragments", "scope": "every location of 4 documents with hostile keys (plain and percent-encoded) + all pointer-shaped fragments of length <= %d over a 14-character alphabet x 3 documents" % (5 if tier == "thorough" else 4),
+                 "cases": r["tried"], "failures": r["failures"], "replay_kind": "ptr", "label": "bounded (not counted as proof)"}]
+
+
 class C18(Spec):
     pid = "C18"
     level = "other"
@@ -477,4 +511,4 @@ class C08(Spec):
         return out
 
 
-SPECS = {"C01": C01, "C03": C03, "C04": C04, "C05": C05, "C07": C07, "C18": C18, "C06": C06, "C08": C08, "C09": C09, "C10": C10}
+SPECS = {"C01": C01, "C03": C03, "C04": C04, "C05": C05, "C14": C14, "C07": C07, "C18": C18, "C06": C06, "C08": C08, "C09": C09, "C10": C10}
